@@ -182,6 +182,11 @@ Theorem C18_grad_CKM_refuted : ~ grad_ok G_CKM.
 Proof. exact CKM_grad_refuted. Qed.
 Theorem C18_grad_CKMdg_refuted : ~ grad_ok G_CKMdg.
 Proof. exact CKMdg_grad_refuted. Qed.
+(* the repaired gradients (fixes/D14.patch, transcribed as g_CKM_fixed) are the derivative *)
+Theorem C18_grad_CKM_repaired : grad_ok G_CKM_fixed.
+Proof. exact CKM_fixed_grad. Qed.
+Theorem C18_grad_CKMdg_repaired : grad_ok G_CKMdg_fixed.
+Proof. exact CKMdg_fixed_grad. Qed.
 
 (* ===== composed gates, generic in the inner gate ================================ *)
 (* ControlledGate (any number of controls, radixes, sets of control levels):
